@@ -8,6 +8,8 @@ import (
 	_ "verifmc/props/c07"
 	_ "verifmc/props/c08"
 	_ "verifmc/props/c10"
+	_ "verifmc/props/c11"
+	_ "verifmc/props/c13"
 	_ "verifmc/props/c14"
 	_ "verifmc/props/c15"
 	_ "verifmc/props/c16"
